@@ -272,26 +272,30 @@ func shrink(v reflect.Value, test func() bool, budget *int) {
 	}
 }
 
-// shrinkBytes is a small delta debugger over an input byte string.
+// shrinkBytes is a small delta debugger over an input byte string: ranges of halving sizes are
+// removed while test keeps holding; ranges of 4 and fewer bytes are tried at every offset.
 func shrinkBytes(in []byte, test func([]byte) bool, budget int) []byte {
 	cur := append([]byte(nil), in...)
-	for chunk := (len(cur) + 1) / 2; chunk >= 1 && budget > 0; {
-		progress := false
-		for off := 0; off+chunk <= len(cur) && budget > 0; {
-			cand := append(append([]byte(nil), cur[:off]...), cur[off+chunk:]...)
-			budget--
-			if test(cand) {
-				cur = cand
-				progress = true
-			} else {
-				off += chunk
+	var sizes []int
+	for c := (len(cur) + 1) / 2; c > 4; c /= 2 {
+		sizes = append(sizes, c)
+	}
+	sizes = append(sizes, 4, 3, 2, 1)
+	for again := true; again && budget > 0; {
+		again = false
+		for _, chunk := range sizes {
+			for off := 0; off+chunk <= len(cur) && budget > 0; {
+				cand := append(append([]byte(nil), cur[:off]...), cur[off+chunk:]...)
+				budget--
+				if test(cand) {
+					cur = cand
+					again = true
+				} else if chunk <= 4 {
+					off++
+				} else {
+					off += chunk
+				}
 			}
-		}
-		if !progress || chunk > len(cur) {
-			chunk /= 2
-		}
-		if chunk > len(cur) {
-			chunk = len(cur)
 		}
 	}
 	return cur
